@@ -4,4 +4,5 @@ CONSTANTS
   ArchSize = 2
   DEV_OccAddsOrientation = FALSE
   DEV_PbWriteTouchesDefaultdict = FALSE
+  DEV_NetworkCopyShallow = FALSE
 INVARIANT Emit
